@@ -16,11 +16,13 @@ ALPHABET = ['gammadet', 'Ktrace', 's_RicciS', 'rho_n', 'betadown3',
             'Momentumup3', 'Momentumx', 'Momentumdownx', 'gammaup3', 's_Ricci_down3', 'Tdown4', 'gdown4',
             's_Gamma_udd3', 'st_Gamma_udd4', 's_Riemann_down3',
             'st_Riemann_down4', 'Weyl_Psi', 'dtconserved', 'Weyl_invariants',
-            'alpha', 'gxx', 'rho0', 'levicivita_down3', 'kronecker_delta4']
+            'alpha', 'gxx', 'rho0', 'levicivita_down3', 'kronecker_delta4',
+            's_covd', 'Lie_beta']
 SMALL = ['gammadet', 'Momentumx', 'Momentumdownx', 'gammaup3', 's_Gamma_udd3', 's_RicciS', 'Tdown4',
          'st_Riemann_down4', 'Weyl_Psi', 'dtconserved', 'Weyl_invariants',
          'alpha', 'DDalpha', 'press_n',   # names containing input names
-         'levicivita_down3']    # a no-argument helper that has no description
+         'levicivita_down3',    # a no-argument helper that has no description
+         's_covd']      # rel['s_covd'] hands out the method (takes arguments)
 _CFG = None
 _PROBLEMS = None      # filled by the monitored core
 
